@@ -15,6 +15,10 @@ def is_erased_call(path):
     return any(path == e or path.startswith(e) for e in ERASE)
 
 
+# generic callees whose type arguments carry meaning (shown in terms)
+SHOW_GARGS = {'std::str::parse'}
+
+
 def show(t):
     if t is None:
         return '_'
@@ -33,6 +37,8 @@ def show(t):
             fs += (', ' if fs else '') + '..' + show(t[3])
         return '%s{%s}' % (t[1], fs)
     if k == 'call':
+        if t[1] in SHOW_GARGS and len(t) > 3 and t[3]:
+            return '%s::<%s>(%s)' % (t[1], ', '.join(t[3]), ', '.join(show(a) for a in t[2]))
         return '%s(%s)' % (t[1], ', '.join(show(a) for a in t[2]))
     if k == 'tup':
         return '(%s)' % ', '.join(show(a) for a in t[1])
@@ -281,7 +287,7 @@ class Evaluator(object):
                 if s.get('els') is not None:
                     self.eval_block(s['els'], dict(env), guards + [Guard((s['sp'], 'let-else', 'letelse', '', None))], fn, chain)
                 pat = s['pat']
-                if pat.get('k') == 'Bind' and 'Mut' in pat.get('mode', '') and val is not None and val[0] == 'call' and len(val[2]) == 0:
+                if pat.get('k') == 'Bind' and pat['id'] not in self.mutated and 'Mut' in pat.get('mode', '') and val is not None and val[0] == 'call' and len(val[2]) == 0:
                     # `let mut x = T::new()`: a fresh mutable object keeps its own identity
                     self.emit('snapshot', val, s, guards, fn, chain, lhs=('var', pat['name'], pat['id']))
                     val = None
@@ -439,7 +445,8 @@ class Evaluator(object):
             self.freeze_readers(env, l, node, guards, fn, chain)
             self.emit('assign', r, node, guards, fn, chain, lhs=l)
             if node['l'].get('k') == 'Local':
-                env[node['l']['id']] = None  # reassigned local: no longer substitutable
+                lid = node['l']['id']
+                env[lid] = ('var', self.mutated[lid], lid) if lid in self.mutated else None  # reassigned local: not substitutable
             return ('unit',)
         if k == 'AssignOp':
             r = self.eval(node['r'], env, guards, fn, chain)
@@ -447,7 +454,8 @@ class Evaluator(object):
             self.freeze_readers(env, l, node, guards, fn, chain)
             self.emit('assignop', ('bin', node['op'].rstrip('='), l, r), node, guards, fn, chain, lhs=l, extra=node['op'])
             if node['l'].get('k') == 'Local':
-                env[node['l']['id']] = None
+                lid = node['l']['id']
+                env[lid] = ('var', self.mutated[lid], lid) if lid in self.mutated else None
             return ('unit',)
         if k == 'Ret':
             v = ('unit',)
